@@ -239,6 +239,25 @@ scpi_bool_t vh_input(vh_ctx_t * v, const void * data, size_t len) {
     return r;
 }
 
+/* One complete message (terminator included or not) delivered in a way chosen by `how`: 0 as it is; 1 its terminator removed and a zero-length
+ * (flush) call instead; 2 like 1, but the message travels in ONE input call behind an empty line - the library executes the empty line, moves
+ * the unterminated rest to the front of its buffer and only the flush call ends it: what lies behind the last byte of the message is then
+ * whatever the buffer held, not a terminator. An empty line and a flush produce no event of their own, so all three must behave alike. */
+scpi_bool_t vh_deliver(vh_ctx_t * v, const void * data, size_t len, int how) {
+    const char * d = (const char *) data; scpi_bool_t r;
+    if (how == 0 || len == 0) return vh_input(v, data, len);
+    while (len && (d[len - 1] == '\n' || d[len - 1] == '\r')) len--;
+    if (how == 1 || len + 3 > v->ctx->buffer.length) { if (len) vh_input(v, d, len); return vh_input(v, NULL, 0); }
+    {
+        char * t = (char *) malloc(len + 2); size_t k = 0;
+        if (len & 1) t[k++] = '\r';
+        t[k++] = '\n'; memcpy(t + k, d, len);
+        vh_input(v, t, k + len); free(t);
+    }
+    r = vh_input(v, NULL, 0);
+    return r;
+}
+
 void vh_drain_errors(vh_ctx_t * v, vh_buf_t * into) {
     int guard = 0;
     while (SCPI_ErrorCount(v->ctx) > 0 && guard++ < 100000) {
